@@ -127,10 +127,20 @@ fn main() {
             chk.finish()
         }
         "C02" => {
-            let chk = Check::new("C02", PART, tier, "exploration");
-            msgs::run_c02(&chk);
-            race::race_probe(&chk, "C02", if tier == Tier::Thorough { 400 } else { 40 });
-            chk.finish()
+            if cfg!(debug_assertions) {
+                // part std-debug: only the concurrent-use SAMPLING probe, in an unoptimised build
+                // (race windows are an order of magnitude wider there)
+                let chk = Check::new("C02", "std-debug", tier, "exploration");
+                chk.rule("unoptimised build: concurrent-use sampling only (child processes x 16 free-running threads classifying and encoding against the table oracle); supplementary, no coverage claim");
+                race::race_probe(&chk, "C02", if tier == Tier::Thorough { 400 } else { 40 });
+                chk.sample(serde_json::json!({"process": "16 threads released together, staggered by 0..200 spin iterations per thread index", "first_calls": "classification of the system messages 0xF1..0xFF"}));
+                chk.finish()
+            } else {
+                let chk = Check::new("C02", PART, tier, "exploration");
+                msgs::run_c02(&chk);
+                race::race_probe(&chk, "C02", if tier == Tier::Thorough { 400 } else { 40 });
+                chk.finish()
+            }
         }
         "C03" => {
             let chk = Check::new("C03", PART, tier, "exploration");
